@@ -1,3 +1,11 @@
 #!/bin/sh
-# placeholder, replaced when the driver exists
-exit 0
+# Build the driver and warm the Go build cache (offline, from files on disk only).
+set -e
+export GOFLAGS=-mod=mod GOPROXY=off GOSUMDB=off GOTOOLCHAIN=local GOCACHE=/verif/.gocache
+mkdir -p /verif/bin /verif/evidence /verif/replays
+cd /verif/sim
+cp /repo/go.sum . 2>/dev/null || true
+go1.26.8 build -o /verif/bin/check ./cmd/check
+go1.26.8 build -o /verif/bin/instrument ./instrument
+cd /verif
+./check selftest --fast
